@@ -5,7 +5,7 @@ import numpy as np
 from hypothesis import strategies as st
 
 from .. import balmodel, gen, model
-from ..core import Ctx, Violation, call, check, per_shard, run_given
+from ..core import Ctx, Violation, call, check, per_shard, run_given, given_part, machine_part, run_parts
 
 PID = "C10"
 LEVEL = "exploration"
@@ -398,9 +398,9 @@ def replay(ctx: Ctx, case):
 
 def run(ctx: Ctx):
     q = ctx.tier == "quick"
-    if not run_given(ctx, "balance", cases(24), check_balance, per_shard(ctx, 1500 if q else 30000), batch=50):
-        return
-    if not run_given(ctx, "cli-blacklist", cli_cases(), check_cli, per_shard(ctx, 160 if q else 4000), batch=20):
-        return
+    parts = []
+    parts.append(given_part(ctx, "balance", cases(24), check_balance, per_shard(ctx, 1500 if q else 30000), batch=50))
+    parts.append(given_part(ctx, "cli-blacklist", cli_cases(), check_cli, per_shard(ctx, 160 if q else 4000), batch=20))
     if not q:
-        run_given(ctx, "balance-large", cases(40), check_balance, per_shard(ctx, 3000), batch=30)
+        parts.append(given_part(ctx, "balance-large", cases(40), check_balance, per_shard(ctx, 3000), batch=30))
+    run_parts(ctx, parts)
